@@ -167,6 +167,18 @@ def state(w):
 def drive(ops):
     out = io.StringIO()
     s = Script()
+    # an 8-bit terminal: when every character of the script is below U+0100, every second script runs on a latin-1 stream
+    codes = []
+
+    def collect(x):
+        if isinstance(x, list):
+            for y in x:
+                collect(y)
+        elif isinstance(x, int) and not isinstance(x, bool) and x >= 0:
+            codes.append(x)
+    collect([o[2:] for o in ops if o and o[0] in ("pos", "diff")])
+    if codes and max(codes) < 256 and sum(codes) % 2 == 1:
+        s.encoding = "latin-1"
     cbs = []
     w = CursorAwareWindow(out_stream=out, in_stream=s, extra_bytes_callback=None)
     w._out = out
